@@ -19,10 +19,12 @@ from vlib import ToolError, log
 PROFILE = {"C16": "handshake", "C03": "go", "C04": "position", "C13": "determinism", "C09": "repetition"}
 TIERS = {
     "quick": {"C16": dict(procs=16, num=6, max_cmds=12), "C03": dict(procs=16, num=8, max_cmds=12),
-              "C04": dict(procs=16, num=5, max_cmds=10), "C13": dict(procs=16, num=3, max_cmds=8, pressure=dict(procs=8, num=1, max_cmds=9, runs=3)),
+              "C04": dict(procs=16, num=5, max_cmds=10), "C13": dict(procs=16, num=3, max_cmds=8, pressure=dict(procs=8, num=1, max_cmds=9, runs=3),
+                          heavy=dict(procs=2, num=1, max_cmds=5, runs=3)),
               "C09": dict(procs=16, num=5, max_cmds=12)},
     "thorough": {"C16": dict(procs=16, num=120, max_cmds=14), "C03": dict(procs=16, num=200, max_cmds=14),
-                 "C04": dict(procs=16, num=80, max_cmds=12), "C13": dict(procs=16, num=60, max_cmds=8, pressure=dict(procs=16, num=3, max_cmds=12, runs=4)),
+                 "C04": dict(procs=16, num=80, max_cmds=12), "C13": dict(procs=16, num=60, max_cmds=8, pressure=dict(procs=16, num=3, max_cmds=12, runs=4),
+                             heavy=dict(procs=5, num=1, max_cmds=8, runs=3)),
                  "C09": dict(procs=16, num=80, max_cmds=14)},
 }
 
@@ -75,6 +77,19 @@ def classify(prop, rej, R, level, script_of):
                     {"kind": "script", "level": level, "script": script})
 
 
+def continued_across_newgame(body):
+    """(i, j): position command j extends position command i (same start, longer move list), or None"""
+    pos_idx = [k for k, c in enumerate(body) if c["kind"] == "position"]
+    for jj in reversed(pos_idx):
+        for ii in reversed([k for k in pos_idx if k < jj]):
+            a, b = body[ii]["text"].split(), body[jj]["text"].split()
+            if len(b) > len(a) and b[:len(a)] == a and (("moves" in a) or b[len(a)] == "moves"):
+                return ii, jj
+    return None
+
+NEWGAME = {"k": "C", "kind": "ucinewgame", "text": "ucinewgame"}
+
+
 def script_from_segment(seg):
     """commands (as UciGen records) of the run that contains the stuck event"""
     out = []
@@ -117,12 +132,28 @@ def run_process_level(prop, tier, seed, R, scripts_override=None):
             with open(tp, "w") as f:
                 for s in scripts:
                     runs = [s]
+                    if prop == "C03":
+                        # the same game continued across a ucinewgame: the move answered must be legal in the position last set
+                        b3 = [c for c in s if c["kind"] not in ("quit", "eof")]
+                        pair = continued_across_newgame(b3)
+                        if pair:
+                            runs.append(b3[:pair[0] + 1] + [NEWGAME] + b3[pair[1]:] + [{"k": "C", "kind": "quit", "text": "quit"}])
                     if prop == "C13":
                         # the same script in three separate processes (three key draws) and once behind a
                         # table-filling prefix + ucinewgame
                         body = [c for c in s if c["kind"] not in ("quit", "eof")]
                         tail = [c for c in s if c["kind"] in ("quit", "eof")][:1] or [{"k": "C", "kind": "quit", "text": "quit"}]
                         runs = [body + tail, body + tail, body + tail]
+                        # a game continued ACROSS a ucinewgame (the position command after it extends the last one before it):
+                        # nothing may be carried over, the answers are those of a fresh process given the tail alone
+                        pair = continued_across_newgame(body)
+                        if pair:
+                            runs.append(body[:pair[0] + 1] + [NEWGAME] + body[pair[1]:] + tail)
+                            runs.append(body[pair[1]:] + tail)
+                        # what follows a ucinewgame inside the script must be answered as by a fresh process
+                        for j, c in enumerate(body):
+                            if c["kind"] == "ucinewgame" and body[j + 1:]:
+                                runs.append(body[j + 1:] + tail)
                         if prefix_gens is not None:
                             pre = proc.load_scripts(prefix_gens[i][0])
                             if pre:
@@ -184,13 +215,24 @@ def run_process_level(prop, tier, seed, R, scripts_override=None):
             for gi, g in enumerate(pg):
                 for si, sc in enumerate(proc.load_scripts(g[0])):
                     jobs.append((gi, si, sc))
+            if T.get("heavy"):
+                # ... and a few games whose first search is a depth-8 one (more than 2^18 table entries afterwards)
+                H = T["heavy"]
+                hg = gen_scripts(work, "heavy", H["procs"], H["num"], seed + 17, H["max_cmds"])
+                for gi, g in enumerate(hg):
+                    for si, sc in enumerate(proc.load_scripts(g[0])):
+                        jobs.insert(0, (100 + gi, si, sc))     # the long ones start first
 
             def prun(job):
                 gi, si, sc = job
                 body = [c for c in sc if c["kind"] not in ("quit", "eof")] + [{"k": "C", "kind": "quit", "text": "quit"}]
-                return [proc.run_script(exe, body, go_timeout=300.0) for _ in range(P["runs"])]
+                return proc.run_script(exe, body, go_timeout=600.0)
+            # every (script, process) pair is one parallel job; the runs of one script are validated together
+            flat = [j for j in jobs for _ in range(P["runs"])]
+            flat_out = vlib.parallel(prun, flat)
+            grouped = [flat_out[k * P["runs"]:(k + 1) * P["runs"]] for k in range(len(jobs))]
             p_runs = p_nodes = 0
-            for (gi, si, sc), evs in zip(jobs, vlib.parallel(prun, jobs)):
+            for (gi, si, sc), evs in zip(jobs, grouped):
                 tp = os.path.join(work, "ptrace_%d_%d.ndjson" % (gi, si))
                 with open(tp, "w") as f:
                     for run_events in evs:
